@@ -316,7 +316,7 @@ func init() {
 		Desc: "session state machine: lock-step histories against an executable 9P2000.L session model",
 		Run:  runC04,
 		Directed: func(tier string) int { return c04SweepSize(tier) },
-		Quick:    48000, Thorough: 1500000, QuickSecs: 60, ThorSecs: 1500,
+		Quick:    48000, Thorough: 3000000, QuickSecs: 60, ThorSecs: 1500,
 		Rule: fmt.Sprintf("sweep: ALL sequences of depth 2 (quick) / 3 (thorough) over an alphabet of %d request templates, each once fault-free and once per position with the first backend call of the request at that position failing (errno from a list incl. wrapped and opaque errors) (3 fids, tree {dir, file, symlink, fifo, socket}, every request type incl. xattr sub-protocol, auth, R-types) after version+attach; random: 20-140 requests over 5 fid numbers (incl. never-bound), safe and unsafe names, all types, half of the runs with 5%% or 20%% of backend calls failing. Oracle: executable session model (bound / kind / opened / mode / xattr state per fid) deciding reject-with-errno-set-and-no-backend-call vs forwarded; forwarded replies compared with the backend call log; fid-table probe at the end. Distinct = (mode, schedule fingerprint); the sweep part is exhaustive over its stated bound.", len(c04Alphabet)),
 		Assume: []string{"where the statement allows two errnos both are accepted", "operations other than read/write/clunk on xattr fids, open mode 3, and over-long read counts are generated but only required to be answered"},
 		Real:   []string{"p9.Server", "p9 handlers / fid table", "p9 wire codec"},
